@@ -31,6 +31,8 @@ impl Config {
     /// Write the given metadata.
     pub fn write_meta(&self) -> Result<()> {
         let f = fs::File::create(&self.meta_path)?;
+        #[cfg(anything_verif)]
+        crate::verif_hooks::crash_point("meta-created");
         serde_json::to_writer(f, &self.meta)?;
         Ok(())
     }
